@@ -1,10 +1,5 @@
 """C17 — every backend visits exactly the iterations of each OKL loop (translation validation)."""
-import json
-import os
-import random
-import time
-
-from hypothesis import given, seed, settings, strategies as st, HealthCheck, Phase
+import re
 
 import vlib
 import v_okl
@@ -15,52 +10,44 @@ ITYPES = ["int", "int", "int", "short", "char", "size_t", "ptrdiff_t"]
 VISIT_PROTO = "void visit(long a, long b, long c, long d, long e, long f);\n"
 
 
-# ---- expression menus: (text, uses run-time args, precedence class) -------------------------------
-def e_small_nonneg():      # init expressions for incrementing loops / bounds for decrementing ones
-    return st.sampled_from(["0", "1", "2", "0 + 1", "n & 1", "m - m", "(n > 5 ? 1 : 0)", "n - n", "1 << 1", "m & 3"])
+# ---- expression menus -------------------------------------------------------------------------------
+E_LO = ["0", "1", "2", "0 + 1", "n & 1", "m - m", "(n > 5 ? 1 : 0)", "n - n", "1 << 1", "m & 3"]
+E_HI = ["n", "m", "n + 1", "n - 1", "n + m", "n >> 1", "m * 2 - 1", "(n | 1)", "n & 7", "2 + 3", "7",
+        "n * 2", "m + 2 * 2", "(n < m ? n : m)", "n - 2 + 1", "1 + ((n + 2) << 1)", "n % 5 + 2"]
+E_HI_UNSIGNED = ["n", "m", "n + 1", "7", "n & 7", "n * 2", "2 + 3", "n + m", "(n | 1)", "m * 2 + 1"]
+E_LO_UNSIGNED = ["0", "1", "2", "0 + 1", "n & 1", "1 << 1", "m & 3"]
+E_STEP = [None, None, None, "1", "2", "3", "s", "s + 1", "1 << 1", "(s | 1)", "s * 2 - 1", "2 + 1"]
+E_WIDTH = ["4", "3", "s + 2", "2 + 1", "(s | 1)"]
+E_HI_NARROW = ["n", "n + 1", "7", "m & 7", "2 + 3"]
 
 
-def e_bound_up():          # upper bounds
-    return st.sampled_from(["n", "m", "n + 1", "n - 1", "n + m", "n >> 1", "m * 2 - 1", "(n | 1)", "n & 7", "2 + 3", "7",
-                            "n * 2", "m + 2 * 2", "(n < m ? n : m)", "n - 2 + 1", "1 + (n << 1)", "n % 5 + 2"])
-
-
-def e_step():
-    return st.sampled_from([None, None, None, "1", "2", "3", "s", "s + 1", "1 << 1", "(s | 1)", "s * 2 - 1", "2 + 1"])
-
-
-@st.composite
-def loop_header(draw, var, kind, outer_vars):
-    """kind: 'outer' | 'inner'.  Returns dict describing one loop header."""
-    ity = draw(st.sampled_from(ITYPES))
+def loop_header(rnd, var, kind, outer_vars):
+    """kind: 'outer' | 'inner'.  Every choice comes from `rnd`, a Random object handed out by Hypothesis
+    (st.randoms(use_true_random=False)), so the case is a function of the Hypothesis seed."""
+    ity = rnd.choice(ITYPES)
     unsigned = ity == "size_t"
     narrow = ity in ("char", "short")
-    down = draw(st.booleans()) and not unsigned
-    inclusive = draw(st.booleans())
-    flip = draw(st.booleans())                 # bound on the left: "B > i"
-    step = draw(e_step())
-    style = draw(st.sampled_from(["pre", "post", "compound"]))
+    down = rnd.random() < 0.5 and not unsigned
+    inclusive = rnd.random() < 0.5
+    flip = rnd.random() < 0.4                  # bound on the left: "B > i"
+    step = rnd.choice(E_STEP)
+    style = rnd.choice(["pre", "post", "compound"])
     rel = None
-    if kind == "inner" and outer_vars and draw(st.integers(0, 3)) == 0:
-        # inner range relative to an outer iterator: trip count must not depend on it
-        rel = draw(st.sampled_from(outer_vars))
-    lo = draw(e_small_nonneg())
-    hi = draw(e_bound_up())
+    if kind == "inner" and outer_vars and rnd.randrange(4) == 0:
+        rel = rnd.choice(outer_vars)           # inner range relative to an outer iterator (trip count independent of it)
+    lo_txt, hi_txt = rnd.choice(E_LO), rnd.choice(E_HI)
+    width = rnd.choice(E_WIDTH)
     if rel is not None:
-        width = draw(st.sampled_from(["4", "3", "s + 2", "2 + 1", "(s | 1)"]))
-        lo_txt, hi_txt = rel, "%s + %s" % (rel, width)
-        if inclusive:
-            hi_txt = "%s + %s - 1" % (rel, width)
-    else:
-        lo_txt, hi_txt = lo, hi
-    if narrow and rel is None:
-        # keep char/short iterators in range: bounds from a small menu
-        hi_txt = draw(st.sampled_from(["n", "n + 1", "7", "m & 7", "2 + 3"]))
+        lo_txt, hi_txt = rel, ("%s + %s - 1" if inclusive else "%s + %s") % (rel, width)
+    elif narrow:
+        hi_txt = rnd.choice(E_HI_NARROW)       # keep char/short iterators in range
+    elif unsigned:
+        # size_t iterators: operands stay non-negative (values n, m >= 0 are used for such programs)
+        lo_txt, hi_txt = rnd.choice(E_LO_UNSIGNED), rnd.choice(E_HI_UNSIGNED)
     if down:
         init, bound = hi_txt, lo_txt
         cmp_ = ">=" if inclusive else ">"
         if rel is not None:
-            # for (i = o + w - 1; i >= o; --i)
             init = "%s + %s - 1" % (rel, width)
             bound = rel if inclusive else "%s - 1" % rel
         upd_op = "-"
@@ -68,11 +55,14 @@ def loop_header(draw, var, kind, outer_vars):
         init, bound = lo_txt, hi_txt
         cmp_ = "<=" if inclusive else "<"
         upd_op = "+"
+    # operators that bind looser than a comparison need parentheses to stay one operand of it
+    cb = bound
+    if any(t in bound for t in ("&", "|", "^", "?")) and not (bound.startswith("(") and bound.endswith(")")):
+        cb = "(" + bound + ")"
     if flip:
-        flipped = {"<": ">", "<=": ">=", ">": "<", ">=": "<="}[cmp_]
-        check = "%s %s %s" % (bound, flipped, var)
+        check = "%s %s %s" % (cb, {"<": ">", "<=": ">=", ">": "<", ">=": "<="}[cmp_], var)
     else:
-        check = "%s %s %s" % (var, cmp_, bound)
+        check = "%s %s %s" % (var, cmp_, cb)
     if step is None:
         upd = {"pre": "%s%s%s" % (upd_op, upd_op, var), "post": "%s%s%s" % (var, upd_op, upd_op),
                "compound": "%s %s= 1" % (var, upd_op)}[style]
@@ -82,22 +72,21 @@ def loop_header(draw, var, kind, outer_vars):
             "inclusive": inclusive, "step": step, "flip": flip, "bound": bound, "rel": rel is not None}
 
 
-@st.composite
-def program(draw):
-    nouter = draw(st.sampled_from([1, 1, 1, 2, 2, 3]))
-    ninner = draw(st.sampled_from([1, 1, 1, 2, 2, 3]))
-    loops = []
-    ovars = []
+def program(rnd):
+    nouter = rnd.choice([1, 1, 1, 2, 2, 3])
+    ninner = rnd.choice([1, 1, 1, 2, 2, 3])
+    loops, ovars = [], []
     for k in range(nouter):
-        v = "o%d" % k
-        loops.append(draw(loop_header(v, "outer", [])))
-        ovars.append(v)
+        loops.append(loop_header(rnd, "o%d" % k, "outer", []))
+        ovars.append("o%d" % k)
+    usable = [o for o, l in zip(ovars, loops) if l["type"] in ("int", "ptrdiff_t")]
     for k in range(ninner):
-        loops.append(draw(loop_header("i%d" % k, "inner", [o for o, l in zip(ovars, loops) if l["type"] in ("int", "ptrdiff_t")])))
+        loops.append(loop_header(rnd, "i%d" % k, "inner", usable))
     # run-time values: three tuples; the last one is small so that some range is empty at run time
-    vals = [(draw(st.integers(3, 9)), draw(st.integers(2, 8)), draw(st.integers(1, 3))),
-            (draw(st.integers(1, 12)), draw(st.integers(0, 6)), draw(st.integers(1, 4))),
-            (draw(st.integers(-2, 2)), draw(st.integers(-1, 2)), draw(st.integers(1, 2)))]
+    lowest = 0 if any(l["type"] == "size_t" for l in loops) else -2
+    vals = [(rnd.randint(3, 9), rnd.randint(2, 8), rnd.randint(1, 3)),
+            (rnd.randint(1, 12), rnd.randint(0, 6), rnd.randint(1, 4)),
+            (rnd.randint(lowest, 2), rnd.randint(max(lowest, -1), 2), rnd.randint(1, 2))]
     return {"loops": loops, "vals": vals}
 
 
@@ -168,197 +157,6 @@ def simplify(desc):
     return outs
 
 
-# ------------------------------------------------------------------------------------------------
-def run_batch(tr, wd, kernels, tag, modes=v_okl.MODES):
-    """translate + build + run a list of Kernel objects for all modes.  Returns list of failure dicts."""
-    reqs = [(k.name, mode, k.okl, "") for k in kernels for mode in modes]
-    res = tr.translate_many(reqs)
-    failures = []
-    info = {"translated": 0, "rejected": 0}
-
-    def one_mode(mode):
-        fails = []
-        items = []
-        for k in kernels:
-            r = res[(k.name, mode)]
-            if "crash" in r:
-                fails.append({"kernel": k.name, "mode": mode, "what": r["crash"]})
-            elif not r["ok"]:
-                fails.append({"kernel": k.name, "mode": mode, "what": "translator rejected a valid loop nest: " + r["diag"][-300:].replace("\n", " | ")})
-            else:
-                items.append((k, r))
-        if not items:
-            return fails
-        base = os.path.join(wd, "%s_%s" % (tag, mode))
-        exe, log = v_okl.compile_tu(v_okl.assemble(mode, items), base, mode)
-        groups = [items]
-        if exe is None:
-            # isolate the case(s) that do not compile
-            groups = []
-            for j, it in enumerate(items):
-                e1, l1 = v_okl.compile_tu(v_okl.assemble(mode, [it]), base + "_%d" % j, mode)
-                if e1 is None:
-                    errs = [x for x in l1.splitlines() if "error" in x][:3]
-                    fails.append({"kernel": it[0].name, "mode": mode, "what": "translated code does not compile: " + " | ".join(errs)[:400]})
-                else:
-                    groups.append([it])
-        for gi, g in enumerate(groups):
-            exe_g = exe if exe is not None else base + "_%d.exe" % items.index(g[0])
-            names = [k.name for k, _ in g]
-            env = dict(os.environ)
-            env["OMP_NUM_THREADS"] = "4"
-            rr = v_okl.run_exe(exe_g, names, {k.name: len(k.calls) for k, _ in g}, env=env)
-            for k, _ in g:
-                bad = [(t, txt) for t, ok, txt in rr.get(k.name, []) if not ok]
-                if not rr.get(k.name):
-                    bad = [(-1, "no result reported")]
-                if bad:
-                    t, txt = bad[0]
-                    vals = k.calls[t] if 0 <= t < len(k.calls) else "?"
-                    fails.append({"kernel": k.name, "mode": mode, "what": "(n,m,s)=%s: %s" % (vals, txt[:400])})
-        return fails
-    from concurrent.futures import ThreadPoolExecutor
-    with ThreadPoolExecutor(max_workers=len(modes)) as ex:
-        for f in ex.map(one_mode, modes):
-            failures.extend(f)
-    return failures
-
-
-def reduce_failure(tr, wd, desc, mode, tagbase):
-    """by-hand shrinking of a failing program descriptor on the failing mode only"""
-    cur = desc
-    budget = 40
-    changed = True
-    n = 0
-    while changed and budget > 0:
-        changed = False
-        for cand in simplify(cur):
-            if not const_eval_ok(cand):
-                continue
-            budget -= 1
-            n += 1
-            k = render(cand, "r%d" % n)
-            if run_batch(tr, wd, [k], "%s_r%d" % (tagbase, n), modes=[mode]):
-                cur = cand
-                changed = True
-                break
-            if budget <= 0:
-                break
-    return cur
-
-
-def run(prop, tier, replay, t0):
-    wd = vlib.workdir(prop)
-    out = vlib.Outcome()
-    tr = v_okl.Translator(wd, nworkers=8)
-    rep_dir = os.path.join(vlib.VERIF, "replays", prop)
-    os.makedirs(rep_dir, exist_ok=True)
-    findings = vlib.known_findings(prop)
-    known_ids = set(f.id for f in findings)
-    try:
-        def replay_file(path):
-            d = json.load(open(path))
-            k = render(d["desc"], "rp")
-            modes = [d["mode"]] if d.get("mode") else v_okl.MODES
-            return run_batch(tr, wd, [k], "rp%d" % (abs(hash(path)) % 10000), modes=modes)
-        if replay:
-            fails = replay_file(os.path.abspath(replay))
-            for f in fails:
-                print("  %s: %s" % (f["mode"], f["what"]))
-            if fails:
-                print("VIOLATION property=%s replay=%s" % (prop, os.path.abspath(replay)))
-                return 1
-            print("REPLAY-PASS")
-            return 0
-        # saved replays: known findings must still fail (else note), regression inputs must pass
-        known_files = {}
-        for f in findings:
-            p = os.path.normpath(os.path.join(vlib.VERIF, f.replay))
-            known_files[p] = f
-            if os.path.exists(p):
-                if replay_file(p):
-                    print("KNOWN-FINDING: property=%s %s [%s]" % (prop, f.text, f.id), flush=True)
-                    out.known_printed.append(f.id)
-                else:
-                    out.notes.append("known finding %s no longer reproduces" % f.id)
-        nreg = 0
-        for fn in sorted(os.listdir(rep_dir)):
-            p = os.path.normpath(os.path.join(rep_dir, fn))
-            if not fn.endswith(".json") or fn.startswith("violation_") or p in known_files:
-                continue
-            nreg += 1
-            fl = replay_file(p)
-            if fl:
-                out.violations.append((p, "regression input fails: %s: %s" % (fl[0]["mode"], fl[0]["what"][:300])))
-        out.extra["regression_replays"] = nreg
-
-        nbatches, bsize = (6, 25) if tier == "quick" else (200, 40)
-        state = {"n": 0, "batches": 0, "nt": set(), "fail": [], "excluded": {}}
-
-        def excluded(desc):
-            for kid in known_ids:
-                sel = KNOWN_SELECTORS.get(kid)
-                if sel and sel(desc):
-                    state["excluded"][kid] = state["excluded"].get(kid, 0) + 1
-                    return True
-            return False
-
-        @seed(vlib.derive(vlib.seed(), prop))
-        @settings(max_examples=nbatches, database=None, deadline=None, derandomize=False,
-                  suppress_health_check=list(HealthCheck), phases=[Phase.generate])
-        @given(st.lists(program(), min_size=bsize, max_size=bsize))
-        def campaign(descs):
-            b = state["batches"]
-            state["batches"] += 1
-            kernels = []
-            for i, d in enumerate(descs):
-                if not const_eval_ok(d) or excluded(d):
-                    continue
-                k = render(d, "k%d_%d" % (b, i))
-                kernels.append(k)
-                if nontrivial(d):
-                    state["nt"].add(k.okl.split("{", 1)[1])
-                for l in d["loops"]:
-                    for cls in (("decrementing" if l["down"] else "incrementing"), ("inclusive" if l["inclusive"] else "exclusive"),
-                                ("step!=1" if l["step"] not in (None, "1") else "unit-step"), ("bound-left" if l["flip"] else "bound-right"),
-                                ("relative-inner" if l["rel"] else "absolute"), "type:" + l["type"]):
-                        out.classes[cls] = out.classes.get(cls, 0) + 1
-                if len(out.samples) < 5 and i == 3:
-                    out.samples.append(k.okl)
-            state["n"] += len(kernels)
-            fails = run_batch(tr, wd, kernels, "b%d" % b)
-            byname = {k.name: k for k in kernels}
-            for f in fails:
-                f["desc"] = byname[f["kernel"]].meta
-                state["fail"].append(f)
-        campaign()
-        out.evaluations = state["n"]
-        out.nontrivial = state["nt"]
-        out.excluded = state["excluded"]
-        # triage: at most 3 distinct (mode, first words) failures are reduced
-        seen = set()
-        for f in state["fail"]:
-            key = (f["mode"], f["what"][:40])
-            if key in seen and len(seen) >= 1:
-                continue
-            seen.add(key)
-            desc = f["desc"]
-            if len(seen) <= 3:
-                desc = reduce_failure(tr, wd, desc, f["mode"], "red%d" % len(seen))
-            path = os.path.join(rep_dir, "violation_seed%d_%d.json" % (vlib.seed(), len(seen)))
-            json.dump({"desc": desc, "mode": f["mode"], "what": f["what"], "okl": render(desc, "rp").okl}, open(path, "w"), indent=1)
-            out.violations.append((path, "%s: %s" % (f["mode"], f["what"][:300])))
-        out.extra["programs"] = state["n"]
-        out.extra["backends"] = v_okl.MODES
-        out.extra["disagreements_checked"] = len(state["fail"])
-        out.extra["engine"] = "Hypothesis-generated loop nests, %d batches x %d; host compiler g++ as reference semantics" % (nbatches, bsize)
-        return vlib.finish(prop, tier, "translation_validation", out, RULE, t0, ASSUME)
-    finally:
-        tr.close()
-        vlib.cleanup(wd)
-
-
-KNOWN_SELECTORS = {}
 RULE = ("case = OKL kernel with 1-3 nested @outer and 1-3 nested @inner loops whose headers are generated (iterator type char/short/"
         "int/size_t/ptrdiff_t; <,<=,>,>= with the bound on either side; ++/--/+=/-= in all spellings; init/bound/step expressions of "
         "varying precedence over kernel arguments n,m,s and literals; inner ranges optionally relative to an outer iterator), run with "
@@ -373,7 +171,35 @@ ASSUME = ["loop direction is consistent (incrementing with </<=, decrementing wi
           "emulation headers under emu/ implement the documented launch model (trusted base)",
           "g++ -O0 is the reference semantics for the plain loops"]
 
-REGISTRY["C17"] = run
+
+
+class C17Spec(v_okl.Spec):
+    rule, assume = RULE, ASSUME
+    quick, thorough = (5, 24), (200, 40)
+    program = staticmethod(program)
+    render = staticmethod(render)
+    valid = staticmethod(const_eval_ok)
+    nontrivial = staticmethod(nontrivial)
+    simplify = staticmethod(simplify)
+
+    def classes(self, d):
+        out = []
+        for l in d["loops"]:
+            out += [("decrementing" if l["down"] else "incrementing"), ("inclusive" if l["inclusive"] else "exclusive"),
+                    ("step!=1" if l["step"] not in (None, "1") else "unit-step"), ("bound-left" if l["flip"] else "bound-right"),
+                    ("relative-inner" if l["rel"] else "absolute"), "type:" + l["type"]]
+        return out
+
+    def known_filter(self, k, mode, txt, known_ids):
+        # known finding 'empty-range-launch': tuples whose reference visits nothing (some range is empty at run time) and
+        # whose launch was refused for its negative size
+        if "empty-range-launch" in known_ids and mode not in ("serial", "openmp") and "ref=0 " in txt and \
+                ("launch dimensions are huge" in txt or "not a multiple of the local size" in txt):
+            return "empty-range-launch"
+        return None
+
+
+REGISTRY["C17"] = lambda prop, tier, replay, t0: v_okl.run_tv(C17Spec(), prop, tier, replay, t0)
 m("C17", "translation_validation",
   "Generated loop nests are translated by all seven back ends; every translation is compiled and executed (GPU back ends under an "
   "emulation of the launch model that uses the launch sizes computed by the translated launcher) and the visited iterator tuples are "
